@@ -92,6 +92,19 @@ Theorem C16_reject_pipeline_default_partial :
 Proof. exact reject_pipeline_default_partial. Qed.
 Print Assumptions C16_reject_pipeline_default_partial.
 
+(* Over histories: whenever the queue records, after each failing attempt, the status the model
+   computes for that attempt's error and decides as the model does (retry iff temporary or
+   unclassified and tries are left), every recorded status is coherent and its class agrees with the
+   decision taken - 4yz when the recipient was retried, 5yz when it was given up before its last
+   permitted try.  For every sequence of well-annotated errors and every max_tries. *)
+Require Maddy.Err.QueueCorr Maddy.Err.QueueLemmas.
+Theorem C16_queue_histories_class_agrees_with_decision :
+  forall mt l i,
+    forallb (fun a : QueueCorr.attempt => wa (fst (fst a))) l = true ->
+    QueueCorr.attempts_agree mt i l = true -> QueueCorr.mon_attempts mt i l = [].
+Proof. exact QueueLemmas.model_history_satisfies. Qed.
+Print Assumptions C16_queue_histories_class_agrees_with_decision.
+
 (* non-vacuity: a deep, non-trivial error satisfies the hypotheses *)
 Example C16_nonvacuous :
   let e := EFields [(KOther 1, FStr [])]
